@@ -209,6 +209,33 @@ func C15(op Opts) *Out {
 			k++
 		}
 	}
+	// family 2b: overflow - integral parts whose product with 10^8 wraps around 2^64 (or 2^63)
+	// into or next to the valid range, and decimal strings of 2^63, 2^64 and their neighbours
+	if op.Shard == 0 {
+		two64 := new(big.Int).Lsh(big.NewInt(1), 64)
+		two63 := new(big.Int).Lsh(big.NewInt(1), 63)
+		e8 := big.NewInt(100000000)
+		for _, modulus := range []*big.Int{two64, two63} {
+			for kk := int64(1); kk <= 40; kk++ {
+				base := new(big.Int).Mul(big.NewInt(kk), modulus)
+				base.Add(base, new(big.Int).Sub(e8, big.NewInt(1)))
+				base.Div(base, e8) // ceil(kk*modulus / 1e8)
+				for j := int64(-1); j <= 2; j++ {
+					v := new(big.Int).Add(base, big.NewInt(j))
+					for _, frac := range []string{"", ".5", ".00000001"} {
+						c15CheckParse(o, v.String()+frac)
+						o.Families["wraparound"]++
+					}
+				}
+			}
+			for j := int64(-2); j <= 2; j++ {
+				v := new(big.Int).Add(modulus, big.NewInt(j))
+				c15CheckParse(o, v.String())
+				c15CheckParse(o, "0."+v.String())
+				o.Families["wraparound"] += 2
+			}
+		}
+	}
 	// family 3: integers
 	max := int64(consensus.MaxMass) * 100000000
 	var ints []int64
